@@ -1,5 +1,7 @@
 """Which contract modules serve which property (the properties themselves are fixed in properties.jsonl)."""
 
+from . import _bounded
+
 PROPERTIES = {
     "C12": dict(
         modules=["contracts.c12_get_data"],
@@ -35,5 +37,11 @@ PROPERTIES = {
         modules=["contracts.c07_scalars", "contracts.c05_result_fields", "contracts.c06_input_types"],
         explanation="scalar annotation placement through the C05/C06 translator contracts, top-level variable serialisation",
         assumptions=["pydantic runs BeforeValidator/PlainSerializer once per non-null occurrence under Optional/List (assumed)"],
+    ),
+    "C18": dict(
+        modules=["contracts.c18_names"],
+        bounded=[_bounded.lazy("contracts.c18_names", "bounded_names")],
+        explanation="process_name for all strings in SMT string theory; str_to_snake_case by exhaustive bounded enumeration",
+        assumptions=["A_snake: assumed contract on str_to_snake_case (regex lookahead is outside the solvers' fragment), bounded stand-in only"],
     ),
 }
